@@ -14,14 +14,23 @@ abbrev UndoStack := List (List Tx × List ((TxId × Nat) × Coin))
 def Play (W : Tx → Prop) (id : TxId) : Prop :=
   (∃ t, W t ∧ t.id = id) ∨ (∃ t, W t ∧ ∃ i ∈ t.ins, i.prev = id)
 
+/-- output indexes in play: the `vout` an input of a transaction of the history names, or an index into the outputs of
+    a transaction of the history. (The code's UIdx reads only the low 32 bits of an index — `realKeys.uidx` has
+    `vout % 2^32` — so no injectivity statement over ALL naturals can hold for it: the hypothesis below is about the
+    indexes that occur.) -/
+def VPlay (W : Tx → Prop) (v : Nat) : Prop :=
+  (∃ t, W t ∧ ∃ i ∈ t.ins, i.vout = v) ∨ (∃ t, W t ∧ v < t.outs.length)
+
 /-- hypotheses on the universe `W` of a history, the initial confirmed set `u0` and the value oracle `ν`:
-    `Univ` plus: BIDX and UIdx do not collide on the txids in play, no transaction of the history has an output in
-    the initial confirmed set, and `ν` gives the value of every output of a transaction of the history and of
-    every initial coin -/
+    `Univ` plus: BIDX does not collide on the txids in play and UIdx does not collide on the (txid, output index) pairs
+    in play, no transaction of the history has an output in the initial confirmed set, and `ν` gives the value of every
+    output of a transaction of the history and of every initial coin. Satisfiable for the code's own keys `realKeys`
+    (`univ2_realKeys` in Proofs/C12Real.lean; until the second audit `uidx_play` ranged over all naturals `v w`, which no
+    universe satisfies for `realKeys` since `uidx a 0 = uidx a 2^32`). -/
 structure Univ2 (K : Keys) (W : Tx → Prop) (rank : TxId → Nat) (u0 : UT) (ν : OutPoint → Nat) : Prop where
   base : Univ K W rank
   bidx_play : ∀ a b, Play W a → Play W b → K.bidx a = K.bidx b → a = b
-  uidx_play : ∀ a b v w, Play W a → Play W b → K.uidx a v = K.uidx b w → a = b ∧ v = w
+  uidx_play : ∀ a b v w, Play W a → Play W b → VPlay W v → VPlay W w → K.uidx a v = K.uidx b w → a = b ∧ v = w
   genesis : ∀ t, W t → ∀ v, u0.get? (t.id, v) = none
   val_tx : ∀ t, W t → ∀ v, ν (t.id, v) = t.outs.getD v 0
   val_u0 : ∀ o c, u0.get? o = some c → ν o = c.value
@@ -29,6 +38,10 @@ structure Univ2 (K : Keys) (W : Tx → Prop) (rank : TxId → Nat) (u0 : UT) (ν
 theorem Play.self {W : Tx → Prop} {t : Tx} (h : W t) : Play W t.id := Or.inl ⟨t, h, rfl⟩
 theorem Play.prev {W : Tx → Prop} {t : Tx} (h : W t) {i : TxIn} (hi : i ∈ t.ins) : Play W i.prev :=
   Or.inr ⟨t, h, i, hi, rfl⟩
+theorem VPlay.vin {W : Tx → Prop} {t : Tx} (h : W t) {i : TxIn} (hi : i ∈ t.ins) : VPlay W i.vout :=
+  Or.inl ⟨t, h, i, hi, rfl⟩
+theorem VPlay.out {W : Tx → Prop} {t : Tx} (h : W t) {v : Nat} (hv : v < t.outs.length) : VPlay W v :=
+  Or.inr ⟨t, h, hv⟩
 
 /-- `id` is the id of an initial coin or of a transaction of a connected block -/
 def Conf (u0 : UT) (st : UndoStack) (id : TxId) : Prop :=
